@@ -565,9 +565,12 @@ func (v *Verifier) VerifyFunc(key string) (res *FuncResult) {
 		return
 	}
 	termDefs = map[string]*Term{}
+	uintAsInt = c.Opts["uint64"] == "int"
+	defer func() { uintAsInt = false }()
 	x := NewExec(v, fn, key, c)
 	res.x = x
 	x.noOverflow = c.NoOverflow
+	x.signedWrap = c.Opts["signedwrap"] != ""
 	defer func() {
 		if r := recover(); r != nil {
 			switch e := r.(type) {
@@ -632,6 +635,13 @@ func (v *Verifier) VerifyFunc(key string) (res *FuncResult) {
 	x.addFreeVarLookup(env, st, fr)
 	for _, r := range c.Requires {
 		st.assume(x.compileBool(env, r.Expr, r))
+	}
+	for _, g := range v.cs.Globals {
+		if p := v.typesPkg(g.PkgPath); p != nil {
+			genv := &Env{x: x, st: st, heap: st.heap, vars: map[string]Value{}, old: st.entry, alloc: st.alloc, pkg: p}
+			st.assume(x.compileBool(genv, g.Clause.Expr, g.Clause))
+			x.assumeNote("package variables after initialisation (" + g.PkgPath + "): " + g.Clause.Text)
+		}
 	}
 	// vacuity: the preconditions (with typing facts) must be satisfiable
 	x.obls = append(x.obls, &Obligation{Fn: key, Kind: "vacuity", Label: key + "/vacuity/requires-satisfiable", Hyps: append([]*Term(nil), st.hyps...), Goal: True, ExpectSat: true})
